@@ -39,7 +39,7 @@ What is proved, and under which hypotheses:
   `C14_stable_of_simple` (change list without `fundingConfirmed`/`unilateral`/`htlcSpent`) and
   `C14_stable_of_quiet` (`QuietBlock`).  Helper lemmas: `VlsModel/Lemmas/MonitorValid.lean`
   (detection reads only `State.core`), `MonitorSim.lean` (simulation argument), `MonitorPre.lean`.
-* `C14_wf_add_valid`, `C14_best_chain_valid'`, `C14_reorg_no_abort_valid'`: `WF` is preserved by
+* `C14_wf_add_valid`, `C14_best_chain_valid_wf0`, `C14_reorg_no_abort_valid_wf0`: `WF` is preserved by
   connecting a `ValidBlock`/`SpendFresh` block (`Lemmas/MonitorWF.lean`), so the history theorems need
   `WF` of the initial state only (`ValidRun'`, invariant `VChain`).
 * `ConsensusValid`, `FundingShape`, `C14_valid_of_consensus`, `C14_best_chain_consensus`,
@@ -829,20 +829,20 @@ theorem VChain.run {s0 : State} (h0 : s0.sawBlock = true) (hwf : WF s0) {p p' : 
 
 /-- **C14, best chain, structural form with `WF` as an invariant**: `WF` is required of the initial
 state only; at every connection only `ValidBlock`, `SpendFresh` and "detection did not panic". -/
-theorem C14_best_chain_valid' {s0 s : State} {st : List (List Tx)} {ops : List Op}
+theorem C14_best_chain_valid_wf0 {s0 s : State} {st : List (List Tx)} {ops : List Op}
     (h0 : s0.sawBlock = true) (hwf : WF s0) (hg : ValidRun' (s0, []) ops)
     (hr : run (s0, []) ops = some (s, st)) :
     replay s0 st = some s :=
   (VChain.run h0 hwf (p := (s0, [])) rfl hg hr).chain.replay
 
 /-- the final state of such a history is well-formed -/
-theorem C14_wf_run_valid' {s0 s : State} {st : List (List Tx)} {ops : List Op}
+theorem C14_wf_run_valid_wf0 {s0 s : State} {st : List (List Tx)} {ops : List Op}
     (h0 : s0.sawBlock = true) (hwf : WF s0) (hg : ValidRun' (s0, []) ops)
     (hr : run (s0, []) ops = some (s, st)) : WF s :=
   (VChain.run h0 hwf (p := (s0, [])) rfl hg hr).wf hwf
 
 /-- **C14, a reorganisation never aborts, structural form with `WF` as an invariant** -/
-theorem C14_reorg_no_abort_valid' {s0 s : State} {st : List (List Tx)} {ops : List Op}
+theorem C14_reorg_no_abort_valid_wf0 {s0 s : State} {st : List (List Tx)} {ops : List Op}
     (h0 : s0.sawBlock = true) (hwf : WF s0) (hg : ValidRun' (s0, []) ops)
     (hr : run (s0, []) ops = some (s, st)) (hne : st ≠ []) :
     step (s, st) .remove ≠ none :=
